@@ -46,6 +46,16 @@ theorem c02_error_frame_on_its_stream (sid : Nat) (e : Exc) :
     (toErrorFrame sid e).sid = sid ∧ (toErrorFrame sid e).ign = false ∧ (toErrorFrame sid e).ty = 11 := by
   cases e <;> simp [toErrorFrame, Frame.sid, Frame.ign, Frame.ty]
 
+/-- **an ERROR frame with an undefined code is not a frame**: whatever follows, a body of type ERROR
+whose 32-bit code is none of the protocol's (the reserved 0, the gaps, the application range, the
+reserved top values) fails to decode — it can only become the invalid-frame marker (or be dropped
+when flagged IGNORE), never an ERROR frame with some substitute code -/
+theorem c02_undefined_error_code_is_not_a_frame (h : Header) (hty : h.ty = 11) (c : Nat) (hc : c < 2 ^ 32)
+    (hnot : c ∉ errorCodes) (d : Bytes) : parseBody h (beBytes 4 c ++ d) = .fail := by
+  simp only [parseBody, hty]
+  rw [readBE_be 4 c _ (by omega)]
+  simp [R.bind_ok, hnot]
+
 /-- non-vacuity: REJECTED (0x202) with a text, and an application failure -/
 example : (0x202 : Nat) ∈ errorCodes ∧ seenByPeer (.protocol 0x202 (some [0x6e, 0x6f])) = .protocol 0x202 [0x6e, 0x6f] ∧
     seenByPeer (.other [0x78]) = .runtime [0x78] := by decide
